@@ -83,7 +83,7 @@ def give_back(vc):
 def replace(vc):
     """ensures _replace: opens exactly one new connection (with the pool keyspace applied) and installs it, clears the replacing flag;
     a failed attempt re-submits itself and installs nothing; on a shut-down pool it opens nothing.  If shutdown() interleaves while
-    the new connection is being opened, the new connection must not be left open (KNOWN FINDING)."""
+    the new connection is being opened, the new connection is closed and not installed."""
     w = P.World(vc)
     old = P.Conn(w, 'old', in_flight=2, orphans=[1, 2], threshold_reached=True)
     pool, lock = P.host_connection(vc, w, old, replacing=True, keyspace='ks')
@@ -106,7 +106,7 @@ def replace(vc):
         vc.check('ok/replacing-flag-cleared', pool.attrs['_is_replacing'] is False)
         vc.check('ok/locks-released', lock.depth == 0 and old.lock.depth == 0)
     else:
-        vc.check('KF:%s/new-connection-not-leaked' % KF_REPLACE, all(c.is_closed for c in new))
+        vc.check('shutdown-during-open/new-connection-not-leaked', all(c.is_closed for c in new) and pool.attrs['_connection'] is None)
 
 
 @harness('C12', 'legacy-pool-wait', functions=['cassandra.pool.HostConnectionPool._wait_for_conn'], native='contracts.native.c12:replay')
